@@ -103,6 +103,13 @@ def _history(ops, a_texts, io_text, b_text, b_first, restore=None):
         try:
             if kind == "create":
                 get(op[1])
+            elif kind == "create_b_text":
+                if op[1] == "lazy":
+                    specs["bt"] = fresh_spec(b_text, lazy=True)
+                elif op[1] == "start_symbol":
+                    specs["bt"] = fresh_spec(b_text, start_symbol="<fa>")
+                else:
+                    specs["bt"] = fresh_spec(b_text, use_cache=True)
             elif kind == "create_io":
                 from simfw import bridge
 
@@ -111,7 +118,8 @@ def _history(ops, a_texts, io_text, b_text, b_first, restore=None):
             elif kind == "fuzz":
                 f = get(op[1])
                 random.seed(op[2])
-                sols = f.fuzz(desired_solutions=op[3], max_generations=op[4], population_size=op[5], random_seed=op[2])
+                kw = {} if op[6] is None else {"max_nodes": op[6]}
+                sols = f.fuzz(desired_solutions=op[3], max_generations=op[4], population_size=op[5], random_seed=op[2], **kw)
                 log.append(("fuzz", len(sols), nodes.MAX_REPETITIONS))
             elif kind == "parse":
                 f = get(op[1])
@@ -168,22 +176,25 @@ def run(run: Run) -> None:
     ops = []
     n_ops = ch.rng_range(1, 6, "sched", "n-ops")
     for _ in range(n_ops):
-        k = ch.weighted([2, 5, 2, 3, 1], "sched", "hist-op")
+        k = ch.weighted([2, 5, 2, 3, 1, 2], "sched", "hist-op")
         i = ch.draw(n_a, "sched", "which-a")
         if k == 0:
             ops.append(("create", i))
         elif k == 1:
-            ops.append(("fuzz", i, 1 + ch.draw(1000, "sched", "a-seed"), ch.rng_range(1, 4, "sched", "a-n"), ch.pick([6, 2, 12], "sched", "a-gens"), ch.pick([6, 3, 12], "sched", "a-pop")))
+            ops.append(("fuzz", i, 1 + ch.draw(1000, "sched", "a-seed"), ch.rng_range(1, 4, "sched", "a-n"), ch.pick([6, 2, 12], "sched", "a-gens"), ch.pick([6, 3, 12], "sched", "a-pop"), ch.pick([None, 8, 20, 300], "sched", "a-max-nodes")))
         elif k == 2:
             ops.append(("parse", i, "12:3:ab:|" + ch.pick(["", "x", "1=a;"], "sched", "a-word")))
         elif k == 3:
             ops.append(("abandon", i, 1 + ch.draw(1000, "sched", "a-seed"), ch.pick([6, 3, 10], "sched", "a-gens"), ch.pick([6, 3], "sched", "a-pop"), ch.rng_range(0, 2, "sched", "a-take")))
             run.fault("abandoned_generator")
-        else:
+        elif k == 4:
             ops.append(("create_io",))
+        else:
+            # another instance built from B's very text, but with other options
+            ops.append(("create_b_text", ch.pick(["lazy", "start_symbol", "stdlib-off-cache-on"], "sched", "b-text-option")))
     b_first = bool(ch.draw(2, "sched", "b-first"))
     for o in ops:
-        run.probe({"create": "history_created_spec", "create_io": "history_created_io_spec", "fuzz": "history_fuzzed_A", "parse": "history_parsed_with_A", "abandon": "history_abandoned_generator"}[o[0]])
+        run.probe({"create_b_text": "history_created_same_text_other_options", "create": "history_created_spec", "create_io": "history_created_io_spec", "fuzz": "history_fuzzed_A", "parse": "history_parsed_with_A", "abandon": "history_abandoned_generator"}[o[0]])
     if b_first:
         run.probe("b_created_before_history")
     run.op("B: workload seed=%d n=%d gens=%d pop=%d; B created %s the history" % (b_seed, n_sol, gens, pop, "before" if b_first else "after"))
